@@ -319,7 +319,9 @@ func (t *terminal) encodeKittyKey(ev KeyEvent, flags int) []byte {
 	case KeyF2:
 		return kittyCSI1('Q', modField)
 	case KeyF3:
-		return kittyCSI1('R', modField)
+		// CSI R was removed from the protocol (it collides with the cursor
+		// position report); F3 is CSI 13 ~
+		return kittyCSITilde(13, modField)
 	case KeyF4:
 		return kittyCSI1('S', modField)
 	case KeyF5:
@@ -358,6 +360,9 @@ func (t *terminal) encodeKittyKey(ev KeyEvent, flags int) []byte {
 			return kittyCSIu(kittyKeyField(127, ev, flags), modField, kittyTextField(ev, flags))
 		}
 		return nil
+	case KeyKPBegin:
+		// the one functional key above 57343 that uses the ~ form
+		return kittyCSITilde(57427, modField)
 	default:
 		if code, ok := kittyFunctionalCode(ev.Code); ok {
 			return kittyCSIu(kittyKeyField(code, ev, flags), modField, kittyTextField(ev, flags))
